@@ -346,8 +346,31 @@ def build(ex):
                                 params={'self': ('const', None), 'timeout': ('const', None)}, self_class=PW, setup=wait_setup, returns='bool',
                                 raises={}, raises_only=[], options={'recv_closed_check': False}), v))
     lemmas.append((main_path_lemma(ex, t_setup), None))
+    lemmas += transport_lemmas(ex)
     workers.install(ex)        # C19.build/C16.build re-register the identity models; the parent/child set-ups need the constant ones
     return lemmas
+
+
+def transport_lemmas(ex):
+    """Lt: the remote kind's outcome travels as framed messages; the composition above takes 'what the backend sent is what the front end receives' from the
+    contracts of the C10 cone - send_msg writes exactly one frame, recv_msg returns the framed message under every segmentation and for every size the length
+    prefix can express.  They are checked here too (a size limit in recv_msg breaks C02 for large results only)."""
+    from . import C10 as _c10
+    saved_abs, saved_ext, saved_spec = dict(ex.abs_classes), dict(ex.ext_models), dict(ex.spec_functions)
+    built = _c10.build(ex)
+    for k_, v_ in saved_abs.items():
+        ex.abs_classes[k_] = v_
+    for k_, v_ in saved_ext.items():
+        ex.ext_models[k_] = v_
+    for k_, v_ in saved_spec.items():
+        ex.spec_functions[k_] = v_
+    out = []
+    for con, v in built:
+        if con.lid in ('L1', 'L2'):
+            con.name = con.name.replace('C10.' + con.lid, 'C02.Lt-' + ('send' if con.lid == 'L1' else 'recv'))
+            con.lid = 'Lt-' + ('send' if con.lid == 'L1' else 'recv')
+            out.append((con, v))
+    return out
 
 
 def main_path_dependencies(repo):
@@ -424,6 +447,9 @@ def main_path_lemma(ex, host_setup):
 
 def replay(ob, repo):
     from pyvc.native import run_script
+    if 'C02.Lt-' in ob.get('lemma', ''):
+        r = run_script('c02_native.py', {'lemma': 'Lf'}, repo, timeout=300)        # the size cases (incl. 8 MiB) of all three kinds
+        return bool(r.get('violates')), r
     if 'C02.Lm' in ob.get('lemma', ''):
         r = run_script('c02_main_native.py', {'lemma': 'Lm'}, repo, timeout=200)
         return bool(r.get('violates')), r
